@@ -624,8 +624,11 @@ static dt_bizda_t
 __bizda_add_b(dt_bizda_t d, int n)
 {
 /* add N business days to D */
-	int tgtb = d.bd + n;
+	int tgtb;
 
+	/* a month/year step may have left a business day that doesn't exist */
+	d = __bizda_fixup(d);
+	tgtb = d.bd + n;
 	return __bizda_fixup_b(d.y, d.m, tgtb);
 }
 
@@ -633,8 +636,13 @@ static dt_bizda_t
 __bizda_add_d(dt_bizda_t d, int n)
 {
 /* add N real days to D */
-	dt_dow_t wd = __bizda_get_wday(d);
-	int tgtb = d.bd + __get_b_equiv(wd, n);
+	dt_dow_t wd;
+	int tgtb;
+
+	/* a month/year step may have left a business day that doesn't exist */
+	d = __bizda_fixup(d);
+	wd = __bizda_get_wday(d);
+	tgtb = d.bd + __get_b_equiv(wd, n);
 
 	return __bizda_fixup_b(d.y, d.m, tgtb);
 }
